@@ -381,6 +381,18 @@ func Step(d Doc, op *Op, r *Res, env Env) StepOut {
 			}
 			return unchanged(d, "delete")
 		}
+		for _, k := range op.XDel {
+			if !validXattrName(k) {
+				// an unsupported name must fail the whole call when there are xattrs to edit; with no
+				// xattrs at all the list is never looked at (unspecified: either)
+				if r.Err == "" && len(d.X) > 0 {
+					return fail([]string{"C07"}, "DeleteWithXattrs accepted the unsupported xattr name %q", k)
+				}
+				if r.Err != "" {
+					return unchanged(d, "delete")
+				}
+			}
+		}
 		if r.Err != "" {
 			if !d.HasBody && r.Err == EMissing {
 				return unchanged(d, "delete")
@@ -1035,10 +1047,12 @@ func stepXattrWrite(d Doc, op *Op, r *Res, env Env, body string, exp uint32, cas
 		}
 		for _, k := range op.XDel {
 			if !validXattrName(k) {
-				if r.Err == "" {
+				if r.Err == "" && len(d.X) > 0 {
 					return fail(t07, "DeleteSubDocPaths accepted the unsupported name %q", k)
 				}
-				return unchanged(d, "xattr")
+				if r.Err != "" {
+					return unchanged(d, "xattr")
+				}
 			}
 		}
 		n := d.clone()
